@@ -99,9 +99,9 @@ check('C19', progs=[('chk_C19', [1])], level='exploration',
 check('C20', progs=[('chk_C20', [1])], level='exploration', extra=ENG,
       floors={'streams': 10000, 'units_style_checked': 50000, 'units_crlf': 10000})
 
-check('C16', progs=[('chk_C16', [2, 3])], level='fault_enumeration',
-      floors={'faulty_runs': 20000, 'lock_faults': 10000, 'unlock_faults': 10000},
-      evaluations_from=['faulty_runs', 'fault_free_histories'])
+check('C16', progs=[('chk_C16', [2, 3])], level='fault_enumeration', extra=ENG,
+      floors={'faulty_runs': 20000, 'lock_faults': 10000, 'unlock_faults': 10000, 'engine_histories_with_mutex': 5000, 'brackets_checked_in_engine_histories': 500000},
+      evaluations_from=['faulty_runs', 'fault_free_histories', 'engine_histories_with_mutex'])
 
 # ----------------------------------------------------------------------------- helpers
 def log(*a):
@@ -435,7 +435,7 @@ check('C17', custom=c17_custom, progs=[('mt_stress', [1, 2, 3, 8])], level='expl
 C03_REPLAY = [  # (program, capacities, extra sources, divisor of the random budget)
     ('chk_C03', [1, 2, 3, 8], ['engine.c'], 1), ('chk_C01', [2], ['engine.c'], 12), ('chk_C02', [1], [], 12), ('chk_C04', [1], ['argcheck.c'], 16), ('chk_C05', [1], ['argcheck.c'], 16),
     ('chk_C06', [2], [], 12), ('chk_C07', [1], [], 24), ('chk_C08', [2], ['engine.c'], 12), ('chk_C09', [1], [], 12), ('chk_C10', [2], [], 12), ('chk_C11', [3], ['engine.c'], 12),
-    ('chk_C12', [2], ['engine.c'], 24), ('chk_C13', [1, 3], [], 12), ('chk_C14', [2], ['engine.c'], 12), ('chk_C15', [8], ['engine.c'], 12), ('chk_C16', [2], [], 16), ('chk_C18', [2], ['engine.c'], 12),
+    ('chk_C12', [2], ['engine.c'], 24), ('chk_C13', [1, 3], [], 12), ('chk_C14', [2], ['engine.c'], 12), ('chk_C15', [8], ['engine.c'], 12), ('chk_C16', [2], ['engine.c'], 16), ('chk_C18', [2], ['engine.c'], 12),
     ('chk_C19', [1], [], 12), ('chk_C20', [1], ['engine.c'], 12)]
 
 def san_key(stderr):
